@@ -556,14 +556,20 @@ class Engine(object):
     Called at end of _bring_all_up_to_date or _bring_mlookups_up_to_date.
     Issues actions for any accumulated cell changes.
     """
+    self._flush_changes()
+    self._pre_update()  # empty lists/sets/maps
+
+  def _flush_changes(self):
+    """
+    Saves accumulated cell changes in out_actions, and empties the accumulator.
+    """
     for node, changes in self._changes_map.items():
       table = self.tables[node.table_id]
       col = table.get_column(node.col_id)
       # If there are changes, save them in out_actions.
       if changes and not col.is_private():
         self.out_actions.summary.add_changes(node.table_id, node.col_id, changes)
-
-    self._pre_update()  # empty lists/sets/maps
+    self._changes_map = OrderedDict()
 
   def _update_loop(self, work_items, ignore_other_changes=False):
     """
@@ -754,7 +760,12 @@ class Engine(object):
       # Sometimes _use_node is called from outside _update_loop.  In this case,
       # we start an _update_loop to compute whatever is required.  Otherwise
       # nested dependencies would not get computed.
-      self._update_loop([WorkItem(node, row_ids, [])], ignore_other_changes=True)
+      try:
+        self._update_loop([WorkItem(node, row_ids, [])], ignore_other_changes=True)
+      finally:
+        # This loop may run outside of a _pre_update/_post_update pair (e.g. when a user action
+        # reads a dirty formula cell). Save its changes now: the next _pre_update discards them.
+        self._flush_changes()
 
 
   def _recompute_step(self, node, allow_evaluation=True, require_rows=None): # pylint: disable=too-many-statements
